@@ -7,6 +7,7 @@ from . import sorts as S
 from .sorts import VObj, VNone, NONE
 from .core import Ctx, Exec, State, OutOfReach, find_def, Obligation, _copy_obj
 from .loops import eval_clause
+from . import comps as _comps  # registers any/all/tuple models  # noqa
 from .api import REGISTRY, ContractInfo
 
 
@@ -150,6 +151,25 @@ def verify_function(info: ContractInfo) -> FunctionResult:
         ob = Obligation(f"{ctx.fname}/cover-requires", "cover", list(st.pc), z3.BoolVal(True), info.relpath)
         ob.facts = facts
         ctx.obligations.append(ob)
+        only = getattr(info.cls, "class_defines_only", None)
+        if only is not None and cls is not None:
+            # frame obligation on the class body: an alias class may define nothing but the listed members
+            cnode = find_def(info.relpath, cls)
+            extra_members = [n.name if hasattr(n, "name") else ast.dump(n)[:40] for n in cnode.body
+                             if not (isinstance(n, ast.Expr) and isinstance(n.value, ast.Constant))
+                             and not (isinstance(n, ast.FunctionDef) and n.name in only)]
+            ob = Obligation(f"{ctx.fname}/frame[class defines only {sorted(only)}]", "frame", [], z3.BoolVal(not extra_members),
+                            f"{info.relpath}:{cnode.lineno}", {"extra_members": extra_members})
+            ob.facts = facts
+            ctx.obligations.append(ob)
+        for kwname, want in (getattr(info.cls, "call_keyword_source", None) or {}).items():
+            # structural obligation: the (unique) call in the body passes exactly this expression for the keyword
+            got = [ast.unparse(k.value) for c in ast.walk(fnode) if isinstance(c, ast.Call) for k in c.keywords if k.arg == kwname]
+            norm = ast.unparse(ast.parse(want, mode="eval").body)
+            ob = Obligation(f"{ctx.fname}/frame[keyword {kwname} is `{norm}`]", "frame", [], z3.BoolVal(got == [norm]),
+                            f"{info.relpath}:{fnode.lineno}", {"found": got})
+            ob.facts = facts
+            ctx.obligations.append(ob)
         outs = ex.exec_block(fnode.body, st)
         raises = info.clauses("raises_")
         ens = info.clause("ensures")
